@@ -132,6 +132,8 @@ struct PendingCmd {
 }
 
 pub struct Exec {
+    /// the sweeper stays parked across the quiescent checks of the next op (ExpiredWrite); any clock advance lifts it
+    sweeper_pinned: bool,
     /// the cache of the prelude, if it stays alive beside the cache under test
     prelude_cache: Option<Arc<CacheD<u64, u64>>>,
     pub cfg: Cfg,
@@ -189,6 +191,7 @@ impl Exec {
         let prelude_cache = cfg.prelude.as_ref().and_then(run_prelude);
         let cache = Arc::new(build_cache(cfg, &clock, &inst));
         Exec {
+            sweeper_pinned: false,
             prelude_cache,
             noise: None,
             cfg: cfg.clone(),
@@ -312,6 +315,7 @@ impl Exec {
     }
 
     fn release_sweeper(&mut self) {
+        if self.sweeper_pinned { return; }
         if self.sweeper_held { self.inst.sweeper_gate.open(); self.sweeper_held = false; }
     }
 
@@ -392,7 +396,9 @@ impl Exec {
             let failure = Failure::new("C01", "C01/quiescent/out-of-bounds", format!("total_weight_used() = {} outside [0, {}] after op #{}", used, self.cfg.max_weight, self.op_index));
             // a campaign that deliberately over-commits the cache through the recorded finding F5 (weight-raising upserts)
             // and is not about C01 carries on: the breach is the known one as long as the model explains it
-            if self.policy.allow_over_limit_upsert && used as i128 == self.model.used() && used > 0 { self.soft(failure)?; } else { return Err(failure); }
+            if self.policy.allow_over_limit_upsert && used as i128 == self.model.used() && used > 0 {
+                if self.policy.note_over_limit { if self.deferred.is_none() { self.deferred = Some(failure); } } else { self.soft(failure)?; }
+            } else { return Err(failure); }
         }
         let permille = ((used as i128 * 1000) / self.cfg.max_weight as i128).clamp(0, 100_000) as u32;
         self.stats.max_used_permille = self.stats.max_used_permille.max(permille);
@@ -965,7 +971,8 @@ impl Exec {
                             self.soft(Failure::new("C08", if entry.soft_deleted { "C08/upsert/soft-deleted" } else { "C08/upsert/expired-unswept/no-ttl-change" },
                                 format!("{} on a key that reads as absent ({}) was acknowledged {:?} but get({}) = None: the upsert is lost", what, if entry.soft_deleted { "deleted, delete not yet acknowledged" } else { "past its time-to-live, not yet swept" }, status, k)))?;
                         }
-                        if readable_now && got != Some(expected_value) {
+                        // (a deadline inside the window of an armed clock jump, or exactly now, leaves the answer open)
+                        if readable_now && !self.at_deadline(k) && got != Some(expected_value) {
                             // the upsert gave the dead entry a new deadline: it is readable again and must show the new state
                             return Err(Failure::new("C08", "C08/in-place/value", format!("after {} get({}) = {:x?}, expected {:x?}", what, k, got, Some(expected_value))));
                         }
